@@ -976,6 +976,34 @@ func run(c *mon.Ctx) {
 			}
 		})
 	}
+	// ---- PES headers: every relation between the two independent length fields and the buffer length
+	c.Exhaustive("PES_packet_length 0..47 x PES_header_data_length 0..31 x PTS_DTS_flags 4 x 6 buffer lengths x 3 stream ids", 48*32*4*6*3)
+	c.StreamSeedless("pes-lengths", 48, func(L int, r *gen.Rand) {
+		curMut = "pes-length-relation"
+		for H := 0; H < 32; H++ {
+			for fl := 0; fl < 4; fl++ {
+				for _, sid := range []byte{0xe0, 0xbd, 0xbe} {
+					for _, n := range []int{8, 9 + H - 1, 9 + H, 9 + H + 1, 9 + H + 7, 9 + H + 40} {
+						if n < 0 {
+							continue
+						}
+						b := make([]byte, n)
+						r.Fill(b)
+						hdr := []byte{0, 0, 1, sid, byte(L >> 8), byte(L), 0x80 | byte(r.Intn(64)), byte(fl)<<6 | byte(r.Intn(64)), byte(H)}
+						copy(b, hdr)
+						drivePES(b)
+						if r.Chance(4) { // the same header as the payload of a packet
+							var pk [188]byte
+							r.Fill(pk[:])
+							pk[0], pk[1], pk[3] = 0x47, 0x40|byte(r.Intn(32)), 0x10|byte(r.Intn(16))
+							copy(pk[4:], b)
+							drivePacket(pk[:], r)
+						}
+					}
+				}
+			}
+		}
+	})
 	// ---- adaptation fields whose optional fields end exactly at / just before / just past byte 188
 	c.Exhaustive("adaptation-field flags byte (256) x transport_private_data_length (256) x 4 extension length choices", 256*256*4)
 	c.StreamSeedless("af-boundaries", 256, func(flags int, r *gen.Rand) {
